@@ -1,6 +1,7 @@
 """C04 - every request terminates after at most retries+1 transmissions (DESIGN 6/C04)."""
 from __future__ import annotations
 
+import asyncio
 import itertools
 
 from sim.net import World, DEFAULT_LATENCY
@@ -136,10 +137,20 @@ def symbol_fault(sym, transport, tau, rnd):
                            {"what": "exc", "code": 4}, {"what": "garbage", "n": 9, "seed": 5}])
         ev = dict(what, ev="data", d=rnd.choice([2 * small, tau / 2, tau, 3 * tau]))
         return {"k": "ok", "d": small, "then": [ev]}
+    if sym == "frag_many":
+        # the answer comes in THREE pieces: a first fragment, a piece shorter than what is missing, and then the rest
+        # - or nothing more
+        s1 = rnd.choice([5, 7, 9, 12])
+        s2 = s1 + rnd.choice([1, 2, 6])
+        d1 = rnd.choice([small, tau / 4])
+        parts = [{"what": "prefix", "s": s1, "d": d1}, {"what": "slice", "a": s1, "b": s2, "d": d1 + rnd.choice([small, tau / 4])}]
+        if rnd.random() < 0.5:
+            parts.append({"what": "suffix", "s": s2, "d": d1 + tau / 2})
+        return {"k": "multi", "parts": parts}
     raise ValueError(sym)
 
 
-EXTRA_SYMBOLS = ["garbage_then", "stray_after"]
+EXTRA_SYMBOLS = ["garbage_then", "stray_after", "frag_many"]
 
 
 def connect_outcome(kind, rnd):
@@ -203,8 +214,17 @@ def make_case(tier, seed, index):
     if tr == "tcp":
         n_pre_conn = pre if not ka else min(pre, 1)
         connects = [{"k": "ok", "d": 0.0} for _ in range(n_pre_conn)] + [connect_outcome(k, rnd) for k in conn_kinds]
-    return {"kind": kind, "transport": tr, "keep_alive": ka, "timeout": tau, "retries": r, "pre": pre,
+    case = {"kind": kind, "transport": tr, "keep_alive": ka, "timeout": tau, "retries": r, "pre": pre,
             "level": level, "cmd": cmd, "script": script, "faults": faults, "connects": connects}
+    if kind == "random" and rnd.random() < 0.3:
+        # a TROUBLED request first (its own fault script; its outcome is not judged here): whatever happened to it,
+        # the request under test still has to terminate within its own budget and timing
+        tf = [symbol_fault(rnd.choice(enabled), tr, tau, rnd) for _ in range(rnd.randint(1, 4))]
+        tc = []
+        if tr == "tcp":
+            tc = [connect_outcome(rnd.choice(["ok", "ok", "refused", "unreach"]), rnd) for _ in range(rnd.randint(0, 5))]
+        case["trouble"] = {"faults": tf, "default": rnd.choice([{"k": "drop"}, {"k": "ok"}]), "connects": tc}
+    return case
 
 
 SHRINK_FROZEN = ("script",)
@@ -212,6 +232,10 @@ SHRINK_FROZEN = ("script",)
 
 def simplify(case):
     out = []
+    if case.get("trouble") is not None:
+        c = dict(case)
+        c.pop("trouble")
+        out.append(c)
     if case["pre"] > 0:
         c = dict(case)
         c["pre"] = 0
@@ -254,6 +278,15 @@ def run_case(case):
             return await C.do_execute(world, proto, case["cmd"], label)
 
     async def main():
+        tb = case.get("trouble")
+        if tb is not None:
+            world.net.begin_script(tb["faults"], tb["default"], tb["connects"])
+            state["trouble"] = await one("trouble")
+            # let everything still in flight for it arrive before the requests under test start
+            while world.net.last_event_time() is not None:
+                await asyncio.sleep(max(EPS, world.net.last_event_time() - world.clock.now) + EPS)
+            await asyncio.sleep(EPS)
+            world.net.begin_script(case["faults"], None, case["connects"])
         for i in range(case["pre"]):
             state.setdefault("pre", []).append(await one("pre%d" % i))
         state["probe_tx0"] = world.net.n_tx
@@ -265,6 +298,7 @@ def run_case(case):
     violations = []
     net = world.net
     tx0 = state.get("probe_tx0", 0)
+    foff = net.fault_offset   # transmissions made by a troubled first request do not consume the script
     txs = [t for t in net.transmissions if t["i"] >= tx0]
     ntx = len(txs)
     fired = [t["fault"] for t in txs]
@@ -334,7 +368,7 @@ def run_case(case):
                 break
         # (4) silent schedule
         silent = all(f == "drop" for f in fired) and ntx > 0 and all(
-            "then" not in case["faults"][t["i"]] for t in txs if t["i"] < len(case["faults"])) and all(
+            "then" not in case["faults"][t["i"] - foff] for t in txs if 0 <= t["i"] - foff < len(case["faults"])) and all(
             c["outcome"] == "ok" and c["t_done"] == c["t"] for c in net.connect_log if c["j"] >= state["probe_conn0"])
         if silent:
             exp_times = [t0 + i * tau for i in range(r + 1)]
@@ -354,8 +388,8 @@ def run_case(case):
     if world.loop_exceptions:
         pass  # C09's subject; recorded in probes only
     sig = (tr, case["keep_alive"], r, case["level"],
-           tuple((t["fault"], C.tbucket(case["faults"][t["i"]].get("d", case["faults"][t["i"]].get("d2"))
-                                        if t["i"] < len(case["faults"]) else None, tau)) for t in txs),
+           tuple((t["fault"], C.tbucket(case["faults"][t["i"] - foff].get("d", case["faults"][t["i"] - foff].get("d2"))
+                                        if 0 <= t["i"] - foff < len(case["faults"]) else None, tau)) for t in txs),
            tuple(c["outcome"] for c in net.connect_log), outcome, ntx)
     nontrivial = any(f != "ok" for f in fired) or any(c["outcome"] != "ok" for c in net.connect_log)
     probes = {
